@@ -13,7 +13,7 @@ out = "/verif/seeded/REVERTED_FIXES.md"
 if os.path.exists(out):
     for l in open(out):
         p = [x.strip() for x in l.strip().strip("|").split("|")]
-        if len(p) == 4 and p[0].startswith("F") and "exit=" in p[3]:
+        if len(p) == 4 and p[0].startswith("F") and "exit=1" in p[3]:
             prev[p[0]] = p
 for f in json.load(open("/verif/KNOWN_FINDINGS.json"))["findings"]:
     if f.get("status") != "fixed":
@@ -40,12 +40,17 @@ for f in json.load(open("/verif/KNOWN_FINDINGS.json"))["findings"]:
         continue
     shutil.rmtree("/tmp/regress_replays", ignore_errors=True)
     env = dict(os.environ, VERIF_PGMPY_PATH=W, VERIF_REPLAY_DIR="/tmp/regress_replays", VERIF_EVIDENCE_DIR="/tmp/mutevidence")
-    p = subprocess.run(["./check", prop, "quick"], cwd="/verif", env=env, capture_output=True, text=True, timeout=3600)
+    p = subprocess.run(["./check", prop, "quick"], cwd="/verif", env=env, capture_output=True, text=True, timeout=5400)
+    tier = "quick"
+    if p.returncode == 0:
+        # not reached by the quick bounds: try the thorough tier
+        tier = "thorough"
+        p = subprocess.run(["./check", prop, "thorough"], cwd="/verif", env=env, capture_output=True, text=True, timeout=7200)
     n = sum(1 for l in p.stdout.splitlines() if l.startswith("VIOLATION"))
     fs = sorted(glob.glob(f"/tmp/regress_replays/{prop}/*.json"))
     if fs:
         shutil.copy(fs[0], f"/verif/replays/regress/{fid}.json")
-    rows.append([fid, prop, c, f"exit={p.returncode}, {n} VIOLATION lines"])
+    rows.append([fid, prop, c, f"{tier}: exit={p.returncode}, {n} VIOLATION lines"])
     print(rows[-1], flush=True)
 subprocess.run(["git", "-C", "/repo", "worktree", "remove", "--force", W], capture_output=True)
 with open(out, "w") as fh:
